@@ -5,9 +5,11 @@ import os
 
 HERE = os.path.dirname(os.path.dirname(os.path.abspath(__file__)))
 
+# only properties listed in claims/ready.txt (checks the lead has confirmed on the unchanged tree) are claimed
+READY = [l.strip() for l in open(os.path.join(HERE, 'claims', 'ready.txt')) if l.strip()]
 CLAIMS = {}
 for _p in sorted(os.listdir(os.path.join(HERE, 'claims'))):
-    if _p.endswith('.json'):
+    if _p.endswith('.json') and _p[:-5] in READY:
         CLAIMS[_p[:-5]] = json.load(open(os.path.join(HERE, 'claims', _p)))
 
 NOT_YET = 'check not built yet in this session (work in progress; see DESIGN.md section 8 build order)'
